@@ -145,7 +145,7 @@ def settings_compare(ra, rb, viols, info):
 
 
 def base_spec(rng, con, **kw):
-    return gen.general(rng, con=con, maxfev=(30, 100), with_callback=False,
+    return gen.general(rng, xunit=False, con=con, maxfev=(30, 100), with_callback=False,
                        forms=("nlc",), **kw)
 
 
